@@ -148,8 +148,8 @@ def plan(ctx):
                 F.Suite(REDUCE_SERIES, "v", {5: 2}),
                 F.Suite(REDUCE_K, "k", {1: 2, 2: 2, 3: 2, 4: 2, 5: 2}),
                 F.Suite(GROUP, "kv", {1: 2, 2: 2, 3: 2}),
-                F.Suite(GROUP_COL, "kv", {4: 1}),
-                F.Suite([k for k in GROUP if k not in GROUP_COL], "kv3", {4: 1}),
+                F.Suite(GROUP_COL, "kv", {4: 0}),
+                F.Suite(GROUP, "kv3", {4: 1}),
                 F.Suite(PERBATCH, "kv", {1: 2, 2: 2, 3: 1}),
                 F.Suite(UNDER, "kv", {1: 2, 2: 2, 3: 2}),
                 F.Suite(UNDER, "kv3", {4: 1})]
